@@ -408,11 +408,20 @@ func (hash *SexpHash) HashDelete(key Sexp) error {
 		return nil
 	}
 
-	hash.NumKeys--
 	for i, pair := range arr {
 		res, err := hash.Env.Compare(pair.Head, key)
 		if err == nil && res == 0 {
 			hash.Map[hashval] = append(arr[0:i], arr[i+1:]...)
+			hash.NumKeys--
+			// forget the key's position too, so that keys, hpair,
+			// range and the printed form no longer present it.
+			for j, k := range hash.KeyOrder {
+				res, err := hash.Env.Compare(k, key)
+				if err == nil && res == 0 {
+					hash.KeyOrder = append(hash.KeyOrder[0:j], hash.KeyOrder[j+1:]...)
+					break
+				}
+			}
 			break
 		}
 	}
